@@ -15,6 +15,7 @@ pub use crate::vorder::*;
 pub use crate::vinterp::*;
 pub use crate::vworld::*;
 pub use crate::vstdx::*;
+pub use crate::vspec_nonce::*;
 verus! {
 //@module_serves ALL
 
@@ -480,9 +481,9 @@ pub open spec fn spec_share_ok_c<C: Ciphersuite>(s: Scalar<C>, id: Identifier<C>
 pub open spec fn enc_id<C: Ciphersuite>(i: Identifier<C>) -> Seq<u8> { FF::<C>::spec_ser(i.0.0) }
 pub open spec fn enc_el<C: Ciphersuite>(e: Element<C>) -> Seq<u8> { GG::<C>::spec_eser(e) }
 
-// rejection sampling of a non-zero scalar (placeholder vocabulary for random_nonzero; T11: termination not proved)
-pub uninterp spec fn spec_rnz_val<C: Ciphersuite>(stream: spec_fn(nat) -> u8, pos: nat) -> Scalar<C>;
-pub uninterp spec fn spec_rnz_end<C: Ciphersuite>(stream: spec_fn(nat) -> u8, pos: nat) -> nat;
+// rejection sampling of a non-zero scalar: `spec_rnz_val::<C>(stream, pos)` (the first non-zero draw) and `spec_rnz_end::<C>(stream, pos)`
+// (the stream position after it) are DEFINED in lemmas/vspec_nonce.rs (re-exported above); random_nonzero is verified against them
+// (contracts/nonce.vc; T11: termination not proved)
 
 // challenge of the proof of knowledge (FROST paper fig. 1, round 1 step 2): c = HDKG(enc(id) || enc(phi_0) || enc(R))
 pub open spec fn spec_dkg_challenge<C: Ciphersuite>(id: Identifier<C>, phi0: Element<C>, r: Element<C>) -> Result<Scalar<C>, Error<C>> {
